@@ -15,7 +15,7 @@ constexpr size_t OPMAX = 3;  // operand orders 0..3 (results up to 6)
 // also the grid-only constructor and the deduction guide.
 template <typename T>
 void splNew(const json &in, json &out) {
-  const Grid<T> g = mkGrid<T>(in.at("g"));
+  VH_OPERAND Grid<T> g = mkGrid<T>(in.at("g"));
   const size_t o = in.at("o").get<size_t>();
   withOrder(o, [&](auto O) {
     constexpr size_t ord = decltype(O)::value;
@@ -28,6 +28,7 @@ void splNew(const json &in, json &out) {
         out["res"] = projSpline(*p);
       const Spline<T, ord> e(g);
       out["mkempty"] = projSpline(e);
+      out["g_after"] = projGrid(g);
     }
   });
 }
@@ -37,12 +38,12 @@ template <typename T>
 void splEval(const json &in, json &out) {
   const json &ja = in.at("a");
   const auto gp = opGrid<T>(ja.at("g"));
-  const Grid<T> &g = *gp;
+  auto &g = operandRef(gp);
   withOrder(ja.at("o").get<size_t>(), [&](auto O) {
     constexpr size_t ord = decltype(O)::value;
     if constexpr (ord <= OPMAX) {
       const auto pp = opSpline<T, ord>(ja, g);
-      const Spline<T, ord> &p = *pp;
+      auto &p = operandRef(pp);
       out["a"] = projSpline(p);
       json vals = json::array();
       for (const auto &jx : in.at("xs")) vals.push_back(Codec<T>::enc(p(Codec<T>::dec(jx))));
@@ -66,14 +67,14 @@ template <typename T>
 void splUn(const json &in, json &out) {
   const json &ja = in.at("a");
   const auto gp = opGrid<T>(ja.at("g"));
-  const Grid<T> &g = *gp;
+  auto &g = operandRef(gp);
   const T k = Codec<T>::dec(in.at("k"));
   const bool kz = (k == static_cast<T>(0));
   withOrder(ja.at("o").get<size_t>(), [&](auto O) {
     constexpr size_t ord = decltype(O)::value;
     if constexpr (ord <= OPMAX) {
       const auto pp = opSpline<T, ord>(ja, g);
-      const Spline<T, ord> &p = *pp;
+      auto &p = operandRef(pp);
       out["a"] = projSpline(p);
       out["mulr"] = projSpline(p * k);
       out["mull"] = projSpline(k * p);
@@ -117,20 +118,20 @@ template <typename T>
 void splBin(const json &in, json &out) {
   const json &ja = in.at("a"), &jb = in.at("b");
   const auto gap = opGrid<T>(ja.at("g"));
-  const Grid<T> &ga = *gap;
+  auto &ga = operandRef(gap);
   const bool share = in.value("share", 0) != 0;
   // share = 0: b lives on its own Grid instance (in threaded mode equal grids are one shared instance)
   const auto gbp = (share || opCache().mode != 0) ? (share ? gap : opGrid<T>(jb.at("g"), 1))
                                                   : std::shared_ptr<const Grid<T>>(new Grid<T>(decVec<T>(jb.at("g"))));
-  const Grid<T> &gb = *gbp;
+  auto &gb = operandRef(gbp);
   withOrder(ja.at("o").get<size_t>(), [&](auto OA) {
     withOrder(jb.at("o").get<size_t>(), [&](auto OB) {
       constexpr size_t oa = decltype(OA)::value, ob = decltype(OB)::value;
       if constexpr (oa <= OPMAX && ob <= OPMAX) {
         const auto ap = opSpline<T, oa>(ja, ga);
         const auto bp = opSpline<T, ob>(jb, gb, share ? 0 : 1);
-        const Spline<T, oa> &a = *ap;
-        const Spline<T, ob> &b = *bp;
+        auto &a = operandRef(ap);
+        auto &b = operandRef(bp);
         out["a"] = projSpline(a);
         out["b"] = projSpline(b);
         guarded(out, "add", [&] { out["add_v"] = projSpline(a + b); });
@@ -167,7 +168,7 @@ void splLin(const json &in, json &out) {
   const json &jss = in.at("ss");
   const size_t o = in.at("o").get<size_t>();
   const bool share = in.value("share", 0) != 0;
-  const std::vector<T> cs = decVec<T>(in.at("cs"));
+  VH_OPERAND std::vector<T> cs = decVec<T>(in.at("cs"));
   withOrder(o, [&](auto O) {
     constexpr size_t ord = decltype(O)::value;
     if constexpr (ord <= OPMAX) {
@@ -187,6 +188,7 @@ void splLin(const json &in, json &out) {
       json after = json::array();
       for (const auto &s : ss) after.push_back(projSpline(s));
       out["ss_after"] = after;
+      out["cs_after"] = encVec(cs);
     }
   });
 }
